@@ -155,10 +155,9 @@ Ltac tail :=
 Ltac go := repeat (step; cleanup); first [tail | finish].
 
 Section Rel.
-Variable dbg : bool.
 
 Lemma digits_loop_rel f r16 : forall s1 s2, eqv s1 s2 -> liv s1 = liv s2 ->
-  Rrel (QLaf s1 s2) (digits_loop dbg f r16 s1) (digits_loop dbg f r16 s2).
+  Rrel (QLaf s1 s2) (digits_loop f r16 s1) (digits_loop f r16 s2).
 Proof.
   induction f as [|f IH]; intros s1 s2 H Hl; [exact I|]. norm. cbn [digits_loop]. prim.
   go.
@@ -166,15 +165,15 @@ Qed.
 #[local] Hint Resolve digits_loop_rel : rel.
 
 Lemma eat_decimal_digits_rel s1 s2 : eqv s1 s2 ->
-  Rrel (QLaf s1 s2) (eat_decimal_digits dbg s1) (eat_decimal_digits dbg s2).
+  Rrel (QLaf s1 s2) (eat_decimal_digits s1) (eat_decimal_digits s2).
 Proof. intros H. norm. unfold eat_decimal_digits, bind. prim. go. Qed.
 #[local] Hint Resolve eat_decimal_digits_rel : rel.
 Lemma eat_hex_digits_rel s1 s2 : eqv s1 s2 ->
-  Rrel (QLaf s1 s2) (eat_hex_digits dbg s1) (eat_hex_digits dbg s2).
+  Rrel (QLaf s1 s2) (eat_hex_digits s1) (eat_hex_digits s2).
 Proof. intros H. norm. unfold eat_hex_digits, bind. prim. go. Qed.
 #[local] Hint Resolve eat_hex_digits_rel : rel.
 Lemma eat_decimal_escape_rel s1 s2 : eqv s1 s2 ->
-  Rrel (QLaf s1 s2) (eat_decimal_escape dbg s1) (eat_decimal_escape dbg s2).
+  Rrel (QLaf s1 s2) (eat_decimal_escape s1) (eat_decimal_escape s2).
 Proof. intros H. norm. unfold eat_decimal_escape, bind. prim. go. Qed.
 #[local] Hint Resolve eat_decimal_escape_rel : rel.
 
@@ -214,11 +213,11 @@ Lemma eat_surrogate_pair_escape_rel s1 s2 : eqv s1 s2 ->
 Proof. start eat_surrogate_pair_escape. go. Qed.
 #[local] Hint Resolve eat_surrogate_pair_escape_rel : rel.
 Lemma eat_codepoint_escape_rel s1 s2 : eqv s1 s2 ->
-  Rrel (QLf s1 s2) (eat_codepoint_escape dbg s1) (eat_codepoint_escape dbg s2).
+  Rrel (QLf s1 s2) (eat_codepoint_escape s1) (eat_codepoint_escape s2).
 Proof. start eat_codepoint_escape. go. Qed.
 #[local] Hint Resolve eat_codepoint_escape_rel : rel.
 Lemma eat_unicode_escape_rel fu s1 s2 : eqv s1 s2 ->
-  Rrel (QLf s1 s2) (eat_unicode_escape dbg fu s1) (eat_unicode_escape dbg fu s2).
+  Rrel (QLf s1 s2) (eat_unicode_escape fu s1) (eat_unicode_escape fu s2).
 Proof. start eat_unicode_escape. go. Qed.
 #[local] Hint Resolve eat_unicode_escape_rel : rel.
 
@@ -226,7 +225,7 @@ Lemma eat_identity_escape_rel s1 s2 : eqv s1 s2 -> Prel QL (eat_identity_escape 
 Proof. start eat_identity_escape. unfold valid_identity_escape. proj. go. Qed.
 #[local] Hint Resolve eat_identity_escape_rel : rel.
 Lemma consume_backreference_rel s1 s2 : eqv s1 s2 ->
-  Rrel QL (consume_backreference dbg s1) (consume_backreference dbg s2).
+  Rrel QL (consume_backreference s1) (consume_backreference s2).
 Proof. start consume_backreference. go. Qed.
 #[local] Hint Resolve consume_backreference_rel : rel.
 
@@ -276,59 +275,59 @@ Lemma consume_character_class_escape_rel s1 s2 : eqv s1 s2 ->
 Proof. start consume_character_class_escape. go. Qed.
 #[local] Hint Resolve consume_character_class_escape_rel : rel.
 Lemma consume_character_escape_rel s1 s2 : eqv s1 s2 ->
-  Rrel QL (consume_character_escape dbg s1) (consume_character_escape dbg s2).
+  Rrel QL (consume_character_escape s1) (consume_character_escape s2).
 Proof. start consume_character_escape. go. Qed.
 #[local] Hint Resolve consume_character_escape_rel : rel.
 
-Lemma eat_rx_id_start_rel s1 s2 : eqv s1 s2 -> Rrel QL (eat_rx_id_start dbg s1) (eat_rx_id_start dbg s2).
+Lemma eat_rx_id_start_rel s1 s2 : eqv s1 s2 -> Rrel QL (eat_rx_id_start s1) (eat_rx_id_start s2).
 Proof. start eat_rx_id_start. go. Qed.
 #[local] Hint Resolve eat_rx_id_start_rel : rel.
-Lemma eat_rx_id_part_rel s1 s2 : eqv s1 s2 -> Rrel (QLf s1 s2) (eat_rx_id_part dbg s1) (eat_rx_id_part dbg s2).
+Lemma eat_rx_id_part_rel s1 s2 : eqv s1 s2 -> Rrel (QLf s1 s2) (eat_rx_id_part s1) (eat_rx_id_part s2).
 Proof. start eat_rx_id_part. go. Qed.
 #[local] Hint Resolve eat_rx_id_part_rel : rel.
 Lemma id_parts_rel f : forall s1 s2, eqv s1 s2 -> lstr s1 = lstr s2 ->
-  Rrel QSa (id_parts dbg f s1) (id_parts dbg f s2).
+  Rrel QSa (id_parts f s1) (id_parts f s2).
 Proof. induction f as [|f IH]; intros s1 s2 H Hl; [exact I|]. norm. cbn [id_parts]. unfold bind. prim. go. Qed.
 #[local] Hint Resolve id_parts_rel : rel.
 Lemma eat_rx_identifier_name_rel s1 s2 : eqv s1 s2 ->
-  Rrel QS (eat_rx_identifier_name dbg s1) (eat_rx_identifier_name dbg s2).
+  Rrel QS (eat_rx_identifier_name s1) (eat_rx_identifier_name s2).
 Proof. start eat_rx_identifier_name. go. Qed.
 #[local] Hint Resolve eat_rx_identifier_name_rel : rel.
-Lemma eat_group_name_rel s1 s2 : eqv s1 s2 -> Rrel QS (eat_group_name dbg s1) (eat_group_name dbg s2).
+Lemma eat_group_name_rel s1 s2 : eqv s1 s2 -> Rrel QS (eat_group_name s1) (eat_group_name s2).
 Proof. start eat_group_name. go. Qed.
 #[local] Hint Resolve eat_group_name_rel : rel.
-Lemma consume_k_group_name_rel s1 s2 : eqv s1 s2 -> Rrel QE (consume_k_group_name dbg s1) (consume_k_group_name dbg s2).
+Lemma consume_k_group_name_rel s1 s2 : eqv s1 s2 -> Rrel QE (consume_k_group_name s1) (consume_k_group_name s2).
 Proof. start consume_k_group_name. go. Qed.
 #[local] Hint Resolve consume_k_group_name_rel : rel.
 Lemma consume_group_specifier_rel s1 s2 : eqv s1 s2 ->
-  Rrel QE (consume_group_specifier dbg s1) (consume_group_specifier dbg s2).
+  Rrel QE (consume_group_specifier s1) (consume_group_specifier s2).
 Proof. start consume_group_specifier. go. Qed.
 #[local] Hint Resolve consume_group_specifier_rel : rel.
-Lemma consume_atom_escape_rel s1 s2 : eqv s1 s2 -> Rrel QE (consume_atom_escape dbg s1) (consume_atom_escape dbg s2).
+Lemma consume_atom_escape_rel s1 s2 : eqv s1 s2 -> Rrel QE (consume_atom_escape s1) (consume_atom_escape s2).
 Proof. start consume_atom_escape. go. Qed.
 #[local] Hint Resolve consume_atom_escape_rel : rel.
 Lemma consume_reverse_solidus_atom_escape_rel s1 s2 : eqv s1 s2 ->
-  Rrel QE (consume_reverse_solidus_atom_escape dbg s1) (consume_reverse_solidus_atom_escape dbg s2).
+  Rrel QE (consume_reverse_solidus_atom_escape s1) (consume_reverse_solidus_atom_escape s2).
 Proof. start consume_reverse_solidus_atom_escape. go. Qed.
 #[local] Hint Resolve consume_reverse_solidus_atom_escape_rel : rel.
-Lemma consume_class_escape_rel s1 s2 : eqv s1 s2 -> Rrel QL (consume_class_escape dbg s1) (consume_class_escape dbg s2).
+Lemma consume_class_escape_rel s1 s2 : eqv s1 s2 -> Rrel QL (consume_class_escape s1) (consume_class_escape s2).
 Proof. start consume_class_escape. go. Qed.
 #[local] Hint Resolve consume_class_escape_rel : rel.
-Lemma consume_class_atom_rel s1 s2 : eqv s1 s2 -> Rrel QL (consume_class_atom dbg s1) (consume_class_atom dbg s2).
+Lemma consume_class_atom_rel s1 s2 : eqv s1 s2 -> Rrel QL (consume_class_atom s1) (consume_class_atom s2).
 Proof. start consume_class_atom. go. Qed.
 #[local] Hint Resolve consume_class_atom_rel : rel.
-Lemma class_ranges_rel f : forall s1 s2, eqv s1 s2 -> Rrel QE (class_ranges dbg f s1) (class_ranges dbg f s2).
+Lemma class_ranges_rel f : forall s1 s2, eqv s1 s2 -> Rrel QE (class_ranges f s1) (class_ranges f s2).
 Proof. induction f as [|f IH]; intros s1 s2 H; [exact I|]. norm. cbn [class_ranges]. unfold bind. prim. go. Qed.
 #[local] Hint Resolve class_ranges_rel : rel.
 Lemma consume_character_class_rel s1 s2 : eqv s1 s2 ->
-  Rrel QE (consume_character_class dbg s1) (consume_character_class dbg s2).
+  Rrel QE (consume_character_class s1) (consume_character_class s2).
 Proof. start consume_character_class. go. Qed.
 #[local] Hint Resolve consume_character_class_rel : rel.
 Lemma eat_braced_quantifier_rel ne s1 s2 : eqv s1 s2 ->
-  Rrel QE (eat_braced_quantifier dbg ne s1) (eat_braced_quantifier dbg ne s2).
+  Rrel QE (eat_braced_quantifier ne s1) (eat_braced_quantifier ne s2).
 Proof. start eat_braced_quantifier. go. Qed.
 #[local] Hint Resolve eat_braced_quantifier_rel : rel.
-Lemma consume_quantifier_rel nc s1 s2 : eqv s1 s2 -> Rrel QE (consume_quantifier dbg nc s1) (consume_quantifier dbg nc s2).
+Lemma consume_quantifier_rel nc s1 s2 : eqv s1 s2 -> Rrel QE (consume_quantifier nc s1) (consume_quantifier nc s2).
 Proof. start consume_quantifier. go. Qed.
 #[local] Hint Resolve consume_quantifier_rel : rel.
 
@@ -343,29 +342,29 @@ Proof. start assertion. go. Qed.
 Lemma uncapturing_group_rel s1 s2 : eqv s1 s2 -> Rrel QE (uncapturing_group disj s1) (uncapturing_group disj s2).
 Proof. start uncapturing_group. go. Qed.
 #[local] Hint Resolve uncapturing_group_rel : rel.
-Lemma capturing_group_rel s1 s2 : eqv s1 s2 -> Rrel QE (capturing_group dbg disj s1) (capturing_group dbg disj s2).
+Lemma capturing_group_rel s1 s2 : eqv s1 s2 -> Rrel QE (capturing_group disj s1) (capturing_group disj s2).
 Proof. start capturing_group. go. Qed.
 #[local] Hint Resolve capturing_group_rel : rel.
-Lemma atom_rel s1 s2 : eqv s1 s2 -> Rrel QE (atom dbg disj s1) (atom dbg disj s2).
+Lemma atom_rel s1 s2 : eqv s1 s2 -> Rrel QE (atom disj s1) (atom disj s2).
 Proof. start atom. go. Qed.
 #[local] Hint Resolve atom_rel : rel.
-Lemma extended_atom_rel s1 s2 : eqv s1 s2 -> Rrel QE (extended_atom dbg disj s1) (extended_atom dbg disj s2).
+Lemma extended_atom_rel s1 s2 : eqv s1 s2 -> Rrel QE (extended_atom disj s1) (extended_atom disj s2).
 Proof. start extended_atom. go. Qed.
 #[local] Hint Resolve extended_atom_rel : rel.
-Lemma term_rel s1 s2 : eqv s1 s2 -> Rrel QE (term dbg disj s1) (term dbg disj s2).
+Lemma term_rel s1 s2 : eqv s1 s2 -> Rrel QE (term disj s1) (term disj s2).
 Proof. start term. go. Qed.
 #[local] Hint Resolve term_rel : rel.
-Lemma alternative_rel g : forall s1 s2, eqv s1 s2 -> Rrel QE (alternative dbg disj g s1) (alternative dbg disj g s2).
+Lemma alternative_rel g : forall s1 s2, eqv s1 s2 -> Rrel QE (alternative disj g s1) (alternative disj g s2).
 Proof. induction g as [|g IH]; intros s1 s2 H; [exact I|]. norm. cbn [alternative]. unfold bind. prim. go. Qed.
 #[local] Hint Resolve alternative_rel : rel.
-Lemma bars_rel g : forall s1 s2, eqv s1 s2 -> Rrel QE (bars dbg disj g s1) (bars dbg disj g s2).
+Lemma bars_rel g : forall s1 s2, eqv s1 s2 -> Rrel QE (bars disj g s1) (bars disj g s2).
 Proof. induction g as [|g IH]; intros s1 s2 H; [exact I|]. norm. cbn [bars]. unfold bind. prim. go. Qed.
 #[local] Hint Resolve bars_rel : rel.
-Lemma disjunction_body_rel s1 s2 : eqv s1 s2 -> Rrel QE (disjunction_body dbg disj s1) (disjunction_body dbg disj s2).
+Lemma disjunction_body_rel s1 s2 : eqv s1 s2 -> Rrel QE (disjunction_body disj s1) (disjunction_body disj s2).
 Proof. start disjunction_body. go. Qed.
 End KnotRel.
 
-Lemma disjunction_rel f : forall s1 s2, eqv s1 s2 -> Rrel QE (disjunction dbg f s1) (disjunction dbg f s2).
+Lemma disjunction_rel f : forall s1 s2, eqv s1 s2 -> Rrel QE (disjunction f s1) (disjunction f s2).
 Proof.
   induction f as [|f IH]; intros s1 s2 H; [exact I|]. cbn [disjunction].
   apply disjunction_body_rel; assumption.
@@ -373,20 +372,20 @@ Qed.
 #[local] Hint Resolve disjunction_rel : rel.
 
 Lemma consume_pattern_rel s1 s2 : rd s1 = rd s2 -> strict s1 = strict s2 -> uflag s1 = uflag s2 -> nflag s1 = nflag s2 ->
-  Rrel QE (consume_pattern dbg s1) (consume_pattern dbg s2).
+  Rrel QE (consume_pattern s1) (consume_pattern s2).
 Proof.
   intros H1 H2 H3 H4. destruct s1, s2. proj. subst.
   unfold consume_pattern, bind, pattern_fuel, count_capturing_parens. prim. go.
 Qed.
 
-Lemma consume_pattern_rel' s1 s2 : eqv s1 s2 -> Rrel QE (consume_pattern dbg s1) (consume_pattern dbg s2).
+Lemma consume_pattern_rel' s1 s2 : eqv s1 s2 -> Rrel QE (consume_pattern s1) (consume_pattern s2).
 Proof. intros H. unfold eqv in H. apply consume_pattern_rel; apply H. Qed.
 #[local] Hint Resolve consume_pattern_rel : rel.
 
 (* validate_pattern overwrites strict, u_flag, n_flag and the reader, and consume_pattern overwrites
    num_capturing_parens, group_names, backreference_names: nothing of the incoming state is left in `eqv`. *)
 Theorem validate_pattern_rel st1 st2 src u :
-  Rrel QE (validate_pattern dbg st1 src u) (validate_pattern dbg st2 src u).
+  Rrel QE (validate_pattern st1 src u) (validate_pattern st2 src u).
 Proof. destruct st1, st2. unfold validate_pattern, bind. prim. go. Qed.
 
 End Rel.
@@ -396,43 +395,43 @@ Definition verdict_of {A} (r : R A) : verdict :=
   match r with Ok _ _ => VOk | SyntaxErr m _ => VErr m | Panic p => VPanic p | OutOfFuel => VFuel end.
 
 Lemma Rrel_verdict {A} (Q : A -> vst -> vst -> Prop) r1 r2 : Rrel Q r1 r2 -> verdict_of r1 = verdict_of r2.
-Proof. destruct r1, r2; cbn [Rrel verdict_of]; try tauto; intros H; try (destruct H as [-> _]); congruence. Qed.
+Proof. destruct r1, r2; cbn [Rrel verdict_of]; try tauto; intros H; try (destruct H as [H _]; subst); congruence. Qed.
 
-Theorem validator_history_independent : forall dbg st1 st2 src u,
-  verdict_of (validate_pattern dbg st1 src u) = verdict_of (validate_pattern dbg st2 src u).
+Theorem validator_history_independent : forall st1 st2 src u,
+  verdict_of (validate_pattern st1 src u) = verdict_of (validate_pattern st2 src u).
 Proof. intros. eapply Rrel_verdict. apply validate_pattern_rel. Qed.
 
 (* ---- the rule: decisions do not depend on the validator's history ---- *)
 Definition pv_verdict (x : pv) : verdict :=
   match x with PvValid _ => VOk | PvInvalid m _ => VErr m | PvPanic p => VPanic p | PvFuel => VFuel end.
-Lemma check_pattern_indep dbg st1 st2 src u :
-  pv_verdict (check_pattern dbg st1 src u) = pv_verdict (check_pattern dbg st2 src u).
+Lemma check_pattern_indep st1 st2 src u :
+  pv_verdict (check_pattern st1 src u) = pv_verdict (check_pattern st2 src u).
 Proof.
-  unfold check_pattern. pose proof (validator_history_independent dbg st1 st2 src u) as H.
-  destruct (validate_pattern dbg st1 src u), (validate_pattern dbg st2 src u); cbn in *; congruence.
+  unfold check_pattern. pose proof (validator_history_independent st1 st2 src u) as H.
+  destruct (validate_pattern st1 src u), (validate_pattern st2 src u); cbn in *; congruence.
 Qed.
-Lemma both_modes_indep dbg st1 st2 pat : fst (both_modes dbg st1 pat) = fst (both_modes dbg st2 pat).
+Lemma both_modes_indep st1 st2 pat : fst (both_modes st1 pat) = fst (both_modes st2 pat).
 Proof.
-  unfold both_modes. pose proof (check_pattern_indep dbg st1 st2 pat true) as H.
-  destruct (check_pattern dbg st1 pat true) as [t1|m1 t1|p1|], (check_pattern dbg st2 pat true) as [t2|m2 t2|p2|];
+  unfold both_modes. pose proof (check_pattern_indep st1 st2 pat true) as H.
+  destruct (check_pattern st1 pat true) as [t1|m1 t1|p1|], (check_pattern st2 pat true) as [t2|m2 t2|p2|];
     cbn in H; try discriminate; cbn [fst]; try reflexivity; try congruence.
-  pose proof (check_pattern_indep dbg t1 t2 pat false) as H'.
-  destruct (check_pattern dbg t1 pat false), (check_pattern dbg t2 pat false); cbn in H'; try discriminate; cbn [fst];
+  pose proof (check_pattern_indep t1 t2 pat false) as H'.
+  destruct (check_pattern t1 pat false), (check_pattern t2 pat false); cbn in H'; try discriminate; cbn [fst];
     try reflexivity; congruence.
 Qed.
-Theorem check_regex_history_independent : forall dbg st1 st2 pat fl,
-  fst (check_regex dbg st1 pat fl) = fst (check_regex dbg st2 pat fl).
+Theorem check_regex_history_independent : forall st1 st2 pat fl,
+  fst (check_regex st1 pat fl) = fst (check_regex st2 pat fl).
 Proof.
   intros. unfold check_regex. destruct (validate_flags fl); [reflexivity|].
   destruct fl as [|c fl]; [apply both_modes_indep|].
-  pose proof (check_pattern_indep dbg st1 st2 pat (existsb (N.eqb 117) (c :: fl))) as H.
-  destruct (check_pattern dbg st1 pat _) as [t1|m1 t1|p1|], (check_pattern dbg st2 pat _) as [t2|m2 t2|p2|];
+  pose proof (check_pattern_indep st1 st2 pat (existsb (N.eqb 117) (c :: fl))) as H.
+  destruct (check_pattern st1 pat _) as [t1|m1 t1|p1|], (check_pattern st2 pat _) as [t2|m2 t2|p2|];
     cbn in H; try discriminate; cbn [fst]; try reflexivity; try congruence.
   apply both_modes_indep.
 Qed.
 
 (* a file's worth of regexes on one validator = each regex on a fresh validator (until a panic ends the lint) *)
-Definition decide (dbg : bool) (pat fl : str) : decision := fst (check_regex dbg init_vst pat fl).
+Definition decide (pat fl : str) : decision := fst (check_regex init_vst pat fl).
 Fixpoint stop_after (ds : list decision) : list (option decision) :=
   match ds with
   | [] => []
@@ -441,27 +440,27 @@ Fixpoint stop_after (ds : list decision) : list (option decision) :=
               | _ => Some d :: stop_after r
               end
   end.
-Theorem check_file_each_fresh : forall dbg items st,
-  check_file dbg st items = stop_after (map (fun it => decide dbg (fst it) (snd it)) items).
+Theorem check_file_each_fresh : forall items st,
+  check_file st items = stop_after (map (fun it => decide (fst it) (snd it)) items).
 Proof.
-  intros dbg items. induction items as [|[pat fl] r IH]; intros st; [reflexivity|].
+  intros items. induction items as [|[pat fl] r IH]; intros st; [reflexivity|].
   cbn [check_file map stop_after fst snd]. unfold decide.
-  rewrite (check_regex_history_independent dbg init_vst st pat fl).
-  destruct (check_regex dbg st pat fl) as [d st']. cbn [fst].
+  rewrite (check_regex_history_independent init_vst st pat fl).
+  destruct (check_regex st pat fl) as [d st']. cbn [fst].
   destruct d; rewrite ?IH, ?map_map; reflexivity.
 Qed.
-Corollary check_file_history_independent : forall dbg st1 st2 items,
-  check_file dbg st1 items = check_file dbg st2 items.
+Corollary check_file_history_independent : forall st1 st2 items,
+  check_file st1 items = check_file st2 items.
 Proof. intros. rewrite !check_file_each_fresh. reflexivity. Qed.
 
 Definition seq_out_of (x : pv) : seq_out :=
   match x with PvValid _ => SOk | PvInvalid m _ => SErr m | PvPanic p => SPanic p | PvFuel => SFuel end.
-Theorem validate_seq_history_independent : forall dbg items st1 st2,
-  validate_seq dbg st1 items = validate_seq dbg st2 items.
+Theorem validate_seq_history_independent : forall items st1 st2,
+  validate_seq st1 items = validate_seq st2 items.
 Proof.
-  intros dbg items. induction items as [|[pat u] r IH]; intros st1 st2; [reflexivity|].
-  cbn [validate_seq]. pose proof (check_pattern_indep dbg st1 st2 pat u) as H.
-  destruct (check_pattern dbg st1 pat u) as [t1|m1 t1|p1|], (check_pattern dbg st2 pat u) as [t2|m2 t2|p2|];
+  intros items. induction items as [|[pat u] r IH]; intros st1 st2; [reflexivity|].
+  cbn [validate_seq]. pose proof (check_pattern_indep st1 st2 pat u) as H.
+  destruct (check_pattern st1 pat u) as [t1|m1 t1|p1|], (check_pattern st2 pat u) as [t2|m2 t2|p2|];
     cbn in H; try discriminate; try reflexivity.
   - f_equal. apply IH.
   - injection H as ->. f_equal. apply IH.
@@ -471,7 +470,7 @@ Qed.
 (* non-vacuity: the dirty state differs from the initial one in every field, and a state is really threaded *)
 Example dirty_differs : dirty_vst <> init_vst. Proof. discriminate. Qed.
 Example threaded_state_changes :
-  match validate_pattern false init_vst [40; 63; 60; 97; 62; 41] false with  (* (?<a>) *)
+  match validate_pattern init_vst [40; 63; 60; 97; 62; 41] false with  (* (?<a>) *)
   | Ok _ s => gnames s = [[97]] /\ nflag s = true
   | _ => False end.
 Proof. vm_compute. split; reflexivity. Qed.
